@@ -90,15 +90,23 @@ def same_content(report, want, ver):
     if report == want:
         return True, True
     if not want.startswith("CVSS%s\n" % ver):        # an error message: it must be printed, whatever surrounds it
-        return (want.strip() != "" and want.strip() in report and not any(_VEC.match(t) for t in report_tokens(report)[0])), False
+        return (want.strip() != "" and want.strip() in report and len(_full_vectors(report)) < 2), False
     wt, wdoc = report_tokens(want)
     text, doc = _split_json(report)
     words = iter(w.strip("()") if _RATING.match(w) else w for w in text.split())
     return all(any(w == t for w in words) for t in wt) and doc == wdoc, False
 
 
+def _full_vectors(report):
+    """tokens that look like complete emitted vectors (at least five fields), as the report's clean / Red Hat lines carry"""
+    return [t for t in report_tokens(report)[0] if _VEC.match(t) and t.count("/") >= 5]
+
+
 def shows_scores(report, ver):
-    return report.startswith("CVSS%s\n" % ver) or any(_VEC.match(t) for t in report_tokens(report)[0])
+    """does the calculator treat VECTOR as valid (prints a scores report)?  The frozen heading, or - whatever the layout -
+    a score text together with the clean and the Red Hat vector"""
+    toks = report_tokens(report)[0]
+    return report.startswith("CVSS%s\n" % ver) or (len(_full_vectors(report)) >= 2 and any(_NUM.match(t) for t in toks))
 
 
 def argv_of(flags, vec):
